@@ -153,6 +153,7 @@ def generate(rng, tier):
     live = set()
     fault_free = rng.random() < 0.3
     long_run = rng.random() < 0.03
+    esc_run = (not long_run) and rng.random() < 0.03
     for _ in range(rng.randint(10, 40 if tier == "quick" else 80) if not long_run else rng.randint(6, 14)):
         by = rng.randrange(nholders)
         r = rng.random()
@@ -215,6 +216,19 @@ def generate(rng, tier):
     tr = {"colors": colors, "ops": ops}
     if long_run:
         tr["long"] = True
+    if esc_run:
+        # plain operands that contain escape sequences: to a str they are characters like any other
+        def salt(o):
+            if isinstance(o, dict):
+                if "s" in o and "c" not in o and rng.random() < 0.5:
+                    o["s"] = rng.choice(["\x1b[1m", "\x1b[0m", "a\x1b[31mb", "\x1b[38:5:9mx\x1b[0m", "\x1b", "\x1b[", "[0m"]) + o["s"]
+                for v in o.values():
+                    salt(v)
+            elif isinstance(o, list):
+                for v in o:
+                    salt(v)
+        salt(ops)
+        tr["esc_operands"] = True
     return tr
 
 
@@ -302,6 +316,9 @@ class World:
                     kw["bg_color"] = tuple(kw["bg_color"])
                 self.fmts.append(color.ColorFmt(c, **kw))
                 self.styles.append(model_style(spec))
+        # runs whose plain operands contain escape sequences as ordinary characters: the rendering cannot be
+        # parsed back then; texts are observed through plain_text() / len() / == only, colours are left alone
+        self.opaque = bool(trace.get("esc_operands"))
         self.fmt_of_style = {stl: f for stl, f in zip(self.styles, self.fmts)}
         self.max_cells = LONG_MAX_CELLS if trace.get("long") else MAX_CELLS
         self.sub_cls = type("UserText", (color.CHText,), {"__doc__": "a user's subclass that changes nothing"})
@@ -368,8 +385,8 @@ class World:
             p = x.plain_text()
         except Exception as e:
             raise Violation("text", f"observation-raised-{type(e).__name__}", f"{context}: handle {h}: {e!r}")
-        cells = sgr.parse_cells(s)
         want_text = "".join(ch for ch, _ in m.cells)
+        cells = [(ch, stl) for (ch, stl) in m.cells] if self.opaque else sgr.parse_cells(s)
         got_text = "".join(ch for ch, _ in cells)
         if got_text != want_text or p != want_text:
             raise Violation("text", "visible-text", f"{context}: handle {h}: shows {got_text!r} / plain_text {p!r}, model {want_text!r}")
@@ -541,7 +558,12 @@ def apply(w, op):
             if raised is None:
                 raise Violation("fault", "conversion-error-swallowed", "+= with a failing part did not raise")
             # relaxed, narrowly: the receiver keeps its old value or old value + the parts before the failing one
-            got = tuple(sgr.parse_cells(str(w.real[h])))
+            if w.opaque:
+                gp = w.real[h].plain_text()
+                got = tuple(fault.done) if gp == "".join(c for c, _ in fault.done) else \
+                    tuple(old) if gp == "".join(c for c, _ in old) else None
+            else:
+                got = tuple(sgr.parse_cells(str(w.real[h])))
             if m.kind == "T":
                 if got == tuple(fault.done):
                     m.cells = tuple(fault.done)
@@ -643,7 +665,7 @@ def apply(w, op):
             st["returned_receiver"] += 1
         w.store(op["dst"], x, MObj("T", out, "fixed_len"))
     elif k == "format":
-        if op["a"] not in w.real:
+        if op["a"] not in w.real or w.opaque:
             return
         m = w.model[op["a"]]
         text = "".join(ch for ch, _ in m.cells)
@@ -712,7 +734,7 @@ def apply(w, op):
                             f"{str(w.real[op['a']])!r} == {str(rb)!r} gives {got} (!= gives {not got2}), model {want}")
     elif k == "iter":
         # a colored text used as an iterable behaves like a str: one item per visible character
-        if op["a"] not in w.real or w.model[op["a"]].kind != "T":
+        if op["a"] not in w.real or w.model[op["a"]].kind != "T" or w.opaque:
             return
         m = w.model[op["a"]]
         try:
